@@ -77,7 +77,7 @@ def _tags_of(line):
     return tuple(t for t in re.split(r"[ ,]+", m.group(1).strip()) if t)
 
 
-def build_unit(tmpl_path, repo_root, canary=False, verif_root=None):
+def build_unit(tmpl_path, repo_root, canary=False, verif_root=None, findings=False):
     verif_root = verif_root or os.path.dirname(os.path.dirname(os.path.abspath(tmpl_path)))
     gen = Generated()
     sources = {}
@@ -253,7 +253,7 @@ def build_unit(tmpl_path, repo_root, canary=False, verif_root=None):
         rewritten = text
         if it.kind == "fn" and kind == "item":
             try:
-                new, segs = weave_fn(rewritten, directives, canary=canary)
+                new, segs = weave_fn(rewritten, directives, canary=canary, findings=findings)
             except AnchorLost as e:
                 raise ToolError(f"TOOL: {e} in {file_rel} {path} ({rel_t}:{start_line})")
             except Unsupported as e:
@@ -287,4 +287,5 @@ def build_unit(tmpl_path, repo_root, canary=False, verif_root=None):
         gen.emit(new, infos)
 
     process(tmpl_path)
+    gen.has_findings = any("#finding-" in l for l, _, _ in expand(tmpl_path))
     return gen
